@@ -514,6 +514,26 @@ fn canonical_bits(v: f64) -> u64 {
 
 fn boundary(c: &BoundaryCase, info: &mut CaseInfo) -> Result<(), Fail> {
     info.nontrivial = true;
+    // thorough tier, once per run: an item whose hashed byte stream is longer than 2^32 bytes (the length enters the
+    // digest as a 64-bit quantity), fed in 1 MiB writes through the public update of a theta sketch
+    static LONG_DONE: std::sync::atomic::AtomicBool = std::sync::atomic::AtomicBool::new(false);
+    if std::env::var("VERIF_TIER_HINT").map(|t| t == "thorough").unwrap_or(false) && !LONG_DONE.swap(true, std::sync::atomic::Ordering::SeqCst) {
+        let chunk: Vec<u8> = (0..1usize << 20).map(|i| (i as u8).wrapping_mul(31).wrapping_add((i >> 8) as u8)).collect();
+        let tail = [7u8, 1, 2, 3, 4];
+        let times = 4096u64;
+        let item = refhash::Repeated { chunk: &chunk, times, tail: &tail };
+        let mut t = ThetaSketch::builder().lg_k(5).build();
+        t.update(&item);
+        let mut st = refhash::Murmur3Stream::new(refhash::DEFAULT_SEED);
+        for _ in 0..times {
+            st.update(&chunk);
+        }
+        st.update(&tail);
+        let want = st.finish().0 >> 1;
+        let got: Vec<u64> = t.iter().collect();
+        ensure!(got == vec![want], "C16.murmur.long_input", "item of 2^32 + 5 hashed bytes: theta retained {got:x?}, reference {want:x}");
+        info.label("input_longer_than_2^32_bytes");
+    }
     // the byte stream the reference derivations start from, and how the item enters each sketch
     enum Feed {
         U128(u128),
@@ -622,7 +642,7 @@ pub fn def() -> PropDef {
             }),
             Box::new(PropSub {
                 name: "boundary_digests_and_floats",
-                rule: "items built to hit the ends of the derivations through the PUBLIC update methods: (a) u128 items computed as MurmurHash3 pre-images of chosen digests (h1, h2) - every leading-zero count 0..=64 of h2 (register value 1..63, CPC column 0..63, h2 = 0), h1 = 0 / 1 / 2^63 / MAX (theta hash 0 is ignored, slot and row bits all 0 or all 1); (b) update_f64 / update_f32 of theta and CPC with +-0.0, every NaN class, infinities, subnormals and random bits, against Java's canonical form (one zero, one NaN). State compared with the reference derivation; every case non-trivial",
+                rule: "items built to hit the ends of the derivations through the PUBLIC update methods: (a) u128 items computed as MurmurHash3 pre-images of chosen digests (h1, h2) - every leading-zero count 0..=64 of h2 (register value 1..63, CPC column 0..63, h2 = 0), h1 = 0 / 1 / 2^63 / MAX (theta hash 0 is ignored, slot and row bits all 0 or all 1); (b) update_f64 / update_f32 of theta and CPC with +-0.0, every NaN class, infinities, subnormals and random bits, against Java's canonical form (one zero, one NaN). State compared with the reference derivation; thorough tier: once per run an item of 2^32 + 5 hashed bytes against a streaming reference; every case non-trivial",
                 cases_quick: 100_000,
                 cases_thorough: 1_500_000,
                 max_shrink_iters: 2000,
